@@ -208,7 +208,7 @@ func TestVf_C14(t *testing.T) {
 		wg.Add(1)
 		go func(wk int) {
 			defer wg.Done()
-			for c := wk; c < n; c += workers {
+			for c := wk; c < n && !run.Enough(); c += workers {
 				r := rand.New(rand.NewSource(vfkit.Seed()*6700417 + int64(c)))
 				cs := &vfC14Case{Local: vfGenLocal(r), Secret: vfGenSecret(r), Token: r.Intn(3) == 0}
 				switch r.Intn(8) {
